@@ -55,22 +55,39 @@ def r1_polarity(ctx, rep, R='C08.R1'):
     if expr is None or arg is None:
         rep.undecide(R, 'accept', 'the predicate is not a chain of if/return statements')
         return None
-    lits = split_literals(expr, True)
-    pos = [(_any_over(e), p) for e, p in lits]
-    good = len(lits) == 2 and all(a is not None for a, p in pos) and \
-        sorted(p for a, p in pos) == [False, True] and all(a[1] == arg for a, p in pos)
+    # semantic comparison: the predicate as a boolean function of the atoms "some pattern of list X
+    # matches the argument" must be   A(P) and not A(N)   on all four valuations
+    from .common import eval_bool
+    atoms = {}
+    for x in ast.walk(expr):
+        a = _any_over(x)
+        if a is not None and a[1] == arg:
+            atoms.setdefault(a[0], []).append(norm(x))
+    good = len(atoms) == 2
+    P_ = N_ = None
+    if good:
+        l1, l2 = sorted(atoms)
+        for cand_p, cand_n in ((l1, l2), (l2, l1)):
+            ok_all = True
+            for vp in (False, True):
+                for vn in (False, True):
+                    def atom(e, vp=vp, vn=vn, cand_p=cand_p, cand_n=cand_n):
+                        a = _any_over(e)
+                        if a is None or a[1] != arg:
+                            return None
+                        return vp if a[0] == cand_p else (vn if a[0] == cand_n else None)
+                    if eval_bool(expr, atom) is not (vp and not vn):
+                        ok_all = False
+            if ok_all:
+                P_, N_ = cand_p, cand_n
+        good = P_ is not None
     rep.check(good, R, 'accept(value) = any(s(value) for s in P) and not any(s(value) for s in N)',
               'the predicate is %s' % norm(expr), key='accept:shape', func=inner.qualname,
               where=ctx.where(inner, expr))
     if not good:
         return None
-    P_ = [a[0] for a, p in pos if p][0]
-    N_ = [a[0] for a, p in pos if not p][0]
-    pp = polarity(expr, lambda e: is_name(e, P_))
-    pn = polarity(expr, lambda e: is_name(e, N_))
-    rep.check(pp == {1} and pn == {-1}, R, 'polarity: + in %s, - in %s' % (P_, N_),
-              'polarity of the predicate is %s in the positive and %s in the negated list' % (pp, pn),
-              key='accept:polarity', func=inner.qualname, where=ctx.where(inner, expr))
+    # equal to  A(P) and not A(N)  on every valuation, hence increasing in P and decreasing in N
+    rep.ok(R, 'polarity: + in %s, - in %s (from the truth table)' % (P_, N_))
     return P_, N_
 
 
@@ -91,6 +108,28 @@ def _truth_expr(stmts):
         e = ast.BoolOp(op=ast.Or(), values=[
             ast.BoolOp(op=ast.And(), values=[st.test, a]),
             ast.BoolOp(op=ast.And(), values=[ast.UnaryOp(op=ast.Not(), operand=st.test), b])])
+        return ast.fix_missing_locations(ast.copy_location(e, st))
+    if isinstance(st, ast.For) and isinstance(st.target, ast.Name) and isinstance(st.iter, ast.Name) and \
+            len(st.body) == 1 and isinstance(st.body[0], ast.If) and not st.body[0].orelse and \
+            len(st.body[0].body) == 1:
+        # a search loop is ``any``:   for f in L: if f(x): return A   /  ... break ... else: <E>
+        inner, act = st.body[0], st.body[0].body[0]
+        found = ast.Call(func=ast.Name(id='any', ctx=ast.Load()), args=[ast.GeneratorExp(
+            elt=inner.test, generators=[ast.comprehension(target=st.target, iter=st.iter, ifs=[],
+                                                          is_async=0)])], keywords=[])
+        if isinstance(act, ast.Return):
+            a = act.value if act.value is not None else ast.Constant(value=False)
+            b = _truth_expr(list(st.orelse) + list(stmts[1:]))
+        elif isinstance(act, ast.Break):
+            a = _truth_expr(list(stmts[1:]))
+            b = _truth_expr(list(st.orelse) + list(stmts[1:]))
+        else:
+            return None
+        if a is None or b is None:
+            return None
+        e = ast.BoolOp(op=ast.Or(), values=[
+            ast.BoolOp(op=ast.And(), values=[found, a]),
+            ast.BoolOp(op=ast.And(), values=[ast.UnaryOp(op=ast.Not(), operand=found), b])])
         return ast.fix_missing_locations(ast.copy_location(e, st))
     return None
 
@@ -314,6 +353,7 @@ def r5_use_polarity(ctx, rep, R='C08.R5'):
              'is true')
     m = ctx.model
     n = 0
+    sites = set()
     # find_suites: continue under not accept(module_name)
     fs = m.func('find.find_suites')
     for node in ast.walk(fs.node):
@@ -323,6 +363,7 @@ def r5_use_polarity(ctx, rep, R='C08.R5'):
             acc = [(e, pos) for e, pos in lits if isinstance(e, ast.Call) and is_name(e.func, 'accept')]
             if acc:
                 n += 1
+                sites.add('find_suites')
                 rep.check(len(acc) == 1 and acc[0][1] is False and
                           dotted(acc[0][0].args[0]) == 'module_name', R,
                           'find_suites skips a module iff not accept(module_name)',
@@ -338,6 +379,7 @@ def r5_use_polarity(ctx, rep, R='C08.R5'):
             lits = guard_literals(ctx, tf, node)
             acc = [(e, pos) for e, pos in lits if 'accept' in norm(e)]
             n += 1
+            sites.add('tests_from_suite')
             ok = len(acc) == 1 and acc[0][1] is True
             if ok:
                 e = acc[0][0]
@@ -350,18 +392,23 @@ def r5_use_polarity(ctx, rep, R='C08.R5'):
                       key='tests_from_suite:yield:%d' % n, func=tf.qualname, where=ctx.where(tf, node))
     # Filter.global_setup: layers.pop(name) under not accept(name)
     ff = m.func('filter.Filter.global_setup')
-    for c in own_calls(ff.node):
-        if isinstance(c.func, ast.Attribute) and c.func.attr == 'pop' and c.args:
+    removals = [(c, c.args[0]) for c in own_calls(ff.node)
+                if isinstance(c.func, ast.Attribute) and c.func.attr == 'pop' and c.args]
+    removals += [(d, t.slice) for d in ast.walk(ff.node) if isinstance(d, ast.Delete)
+                 for t in d.targets if isinstance(t, ast.Subscript)]
+    for c, key_ in removals:
+        if True:
             from .common import guard_literals
             lits = guard_literals(ctx, ff, c)
             acc = [(e, pos) for e, pos in lits if isinstance(e, ast.Call) and is_name(e.func, 'accept')]
             if acc:
                 n += 1
+                sites.add('filter')
                 rep.check(len(acc) == 1 and acc[0][1] is False and
-                          norm(acc[0][0].args[0]) == norm(c.args[0]), R,
+                          norm(acc[0][0].args[0]) == norm(key_), R,
                           'Filter removes a layer iff not accept(name)',
                           'a layer is removed under %s' % [(norm(e), p) for e, p in acc],
                           key='filter:pop', func=ff.qualname, where=ctx.where(ff, c))
-    rep.floor(R, n, 3, 'predicate use sites')
+    rep.floor(R, len(sites), 3, 'functions that use the predicate (find_suites, tests_from_suite, Filter)')
     from . import c14
     c14.tested_name_is_imported_name(ctx, rep, R)
